@@ -21,11 +21,14 @@ PROPS = {
 }
 ATTACHMENTS = ['a', 'a2']
 VALUES = {
-    's': ['alpha', 'Beta gamma', 'x'], 't': ['tee', 'T'], 'm': ['m1', 'm2', 'm3'], 'b': ['true', 'false'], 'bm': ['true', 'false'],
+    's': ['alpha', 'Beta gamma', 'x', '[[t]]', '{[[m]]}'], 't': ['tee', 'T', '[[s]]'], 'm': ['m1', 'm2', 'm3', '[[t]]'], 'b': ['true', 'false'], 'bm': ['true', 'false'],
     'd1': ['2020-01-01T10:00:00.000000Z', '1999-12-31T23:59:59.999999Z'], 'd2': ['2020-01-02T11:30:15.000000Z', '2021-03-04T05:06:07.123456Z'],
     'f': ['1.500000E+00', '-2.500000E-03', '1.000000E+10'], 'g': ['52.123456,4.123456', '-10.500000,-20.250000'], 'n': ['0', '7', '255'],
 }
-TEXTS = ['', ' ', 'was seen by ', ', ', ' and ', 'X', ' (', ')', ' [x] ', ': ', '.', ' - ', 'é ', '100% ', 'a]b', 'a[b']
+TEXTS = ['', ' ', 'was seen by ', ', ', ' and ', 'X', ' (', ')', ' [x] ', ': ', '.', ' - ', 'é ', '100% ', 'a]b', 'a[b',
+         '[', ']', '[[', ']]', 'x [', '] y', ',', ':', '[[s', 't]]', '[]']
+FRAGMENTS = ['[[', ']]', '[', ']', '{', '}', 's', 't', 'm', 'b', 'd1', 'd2', 'a', 'merge:', 'empty:', 'unless_empty:', 'url:',
+             'boolean_on_off:', 'date_time:', 'attachment:', ',', ':', ' ', 'x', 'year', '[[s]]', '[[t]]', '{[[m]]}', '[[merge:s,t]]']
 ACCURACY = ['year', 'month', 'date', 'hour', 'minute', 'second', 'millisecond', 'microsecond']
 
 
@@ -132,13 +135,68 @@ class Invalid(Exception):
     pass
 
 
+def ref_scan(s):
+    """A brace-free string as text and placeholders: a placeholder is `[[`, then characters other than `]`, then `]]`."""
+    nodes, i, text = [], 0, ''
+    while True:
+        j = s.find('[[', i)
+        if j < 0:
+            text += s[i:]
+            break
+        k = s.find(']', j + 2)
+        if k < 0:
+            text += s[i:]
+            break
+        if s[k:k + 2] == ']]':
+            text += s[i:j]
+            if text:
+                nodes.append(['text', text])
+                text = ''
+            inner = s[j + 2:k]
+            if ':' in inner:
+                f, a = inner.split(':', 1)
+            else:
+                f, a = None, inner
+            nodes.append(['ph', f, a.split(',') if a != '' else []])
+            i = k + 2
+        else:
+            # the first ] after [[ is not doubled: no placeholder can start before it
+            text += s[i:k + 1]
+            i = k + 1
+    if text:
+        nodes.append(['text', text])
+    return nodes
+
+
+def ref_parse(tpl):
+    """The syntax tree of a template string; Invalid when the curly brackets are not balanced."""
+    stack = [[]]
+    cur = ''
+    for c in tpl:
+        if c in '{}':
+            stack[-1].extend(ref_scan(cur) if cur else [])
+            if not cur:
+                stack[-1].append(['text', ''])
+            cur = ''
+            if c == '{':
+                stack.append([])
+            else:
+                if len(stack) == 1:
+                    raise Invalid('unbalanced')
+                inner = stack.pop()
+                stack[-1].append(['scope', inner])
+        else:
+            cur += c
+    if len(stack) != 1:
+        raise Invalid('unbalanced')
+    stack[-1].extend(ref_scan(cur))
+    return stack[0]
+
+
 def ref_validate(nodes):
     for n in nodes:
         if n[0] == 'scope':
             ref_validate(n[1])
-        elif n[0] == 'text':
-            if '[[' in n[1] or '{' in n[1] or '}' in n[1]:
-                raise Invalid('text')
         elif n[0] == 'ph':
             f, args = n[1], n[2]
             known = ('time_span', 'date_time', 'duration', 'merge', 'attachment', 'boolean_string_choice', 'boolean_on_off',
@@ -315,14 +373,18 @@ class C16(Property):
         n = 250 if tier == 'quick' else 6000
         for i in range(n):
             bias = 0.97 if i % 3 else 0.6
-            nodes = gen_nodes(rng, 0, bias)
-            yield {'nodes': nodes, 'events': [gen_event(rng) for _ in range(3)], 'rep': ['plain', 'element', 'parsed'][i % 3]}
+            if i % 5 == 4:
+                # the template as a string of fragments: brackets in every position
+                tpl = ''.join(rng.choice(FRAGMENTS) for _ in range(rng.randint(1, 9)))
+            else:
+                tpl = render(gen_nodes(rng, 0, bias))
+            yield {'template': tpl, 'events': [gen_event(rng) for _ in range(3)], 'rep': ['plain', 'element', 'parsed'][i % 3]}
 
     # -- implementation
     def observe(self, case):
         from edxml import Template
         from edxml.error import EDXMLOntologyValidationError
-        tpl = render(case['nodes'])
+        tpl = case['template']
         o = build_ontology()
         et = o.get_event_type('t')
         try:
@@ -418,12 +480,12 @@ class C16(Property):
                 'dates': dates, 'spans': spans, 'durations': durations}
 
     def requests(self, case):
-        return [{'op': 'template', 'nodes': case['nodes'], 'props': [[k, v[0]] for k, v in PROPS.items()], 'attachments': ATTACHMENTS,
+        return [{'op': 'template', 'template': case['template'], 'props': [[k, v[0]] for k, v in PROPS.items()], 'attachments': ATTACHMENTS,
                  'envs': [self.env_of(ev, case['rep']) for ev in case['events']]}]
 
     def predict(self, case, replies):
         r = replies[0]
-        tpl = render(case['nodes'])
+        tpl = case['template']
         if not r['valid']:
             return {'template': tpl, 'verdict': 'invalid', 'evals': []}
         evals = []
@@ -444,13 +506,21 @@ class C16(Property):
     def oracle(self, case, obs):
         tpl = obs['template']
         try:
-            ref_validate(case['nodes'])
+            nodes = ref_parse(tpl)
+            ref_validate(nodes)
             want = 'ok'
         except Invalid:
             want = 'invalid'
         if obs['verdict'].startswith('raised:'):
             return 'validating %r raised %s' % (tpl, obs['verdict'][7:])
         if obs['verdict'] != want:
+            if want == 'invalid':
+                # accepted although a placeholder is not valid: say what evaluation then does
+                for ev, r in zip(case['events'], obs['evals']):
+                    for out in r['outs']:
+                        if isinstance(out, str) and out.startswith('raised:'):
+                            return 'template %r passes validation; evaluating it for %s event %s raised %s' % (
+                                tpl, case['rep'], json.dumps(ev, ensure_ascii=False)[:300], out[7:])
             return 'template %r is %s but validation says %s' % (tpl, 'valid' if want == 'ok' else 'not valid', obs['verdict'])
         if want != 'ok':
             return None
@@ -466,7 +536,7 @@ class C16(Property):
             # floats are shown with six decimals; the second evaluation must equal the first
             if r['outs'][0] != r['outs'][1]:
                 return '%s: evaluating twice gives %r and then %r' % (where, r['outs'][0], r['outs'][1])
-            pattern = ref_eval(case['nodes'], objs, atts)
+            pattern = ref_eval(nodes, objs, atts)
             got = r['outs'][0]
             if pattern == '':
                 if got != '':
@@ -475,8 +545,6 @@ class C16(Property):
                 return '%s: evaluates to %r, expected something matching %r' % (where, got, pattern[:300])
             if r['outs'][2] != cap(got) and not got.startswith('\n'):
                 return '%s: EventType.evaluate_template gives %r, Template.evaluate %r' % (where, r['outs'][2], got)
-            if re.search(r'\[\[[^\]]*\]\]', got):
-                return '%s: the result %r contains an unresolved placeholder' % (where, got)
         return None
 
     def neighbours(self, case, rng):
@@ -492,7 +560,7 @@ class C16(Property):
         return json.dumps(case, sort_keys=True)
 
     def sample_view(self, case):
-        return {'template': render(case['nodes'])}
+        return {'template': case['template']}
 
 
 PROPERTY = C16()
